@@ -23,6 +23,7 @@ class Ctx:
         self.assumptions = []
         self.trusted = []
         self._seen = set()
+        self.self_audit = None
 
     # ------------------------------------------------------------- recording
     def _rec(self, status, rule, key, where, detail, nontrivial=True, path=None):
@@ -143,6 +144,7 @@ def finish(ctx, t0, functions_analysed, seed=0):
             'unmodelled': ctx.unmodelled[:50],
             'notes': ctx.notes,
             'known_findings_hit': [k for k, _ in known_hit],
+            'self_audit': ctx.self_audit,
             'trusted_base': ctx.trusted,
             'checker_cmd': './check %s --tier %s' % (ctx.prop, ctx.tier),
             'exhaustive': False,
